@@ -22,7 +22,7 @@ EXPLANATION = (
     'done() test (a cancelled awaitable must not kill the one sender task); (f) nothing is signalled after the '
     'terminal signal (shared with C07.b); (g) every dereference of the optional local subscription of a channel is '
     'dominated by a None test. Not decided: "production stops" as an observable over time.')
-EXPLANATION_ADDED = ("(h) request_response registers the requester's cancel callback on the very future it returns; a CANCEL is never inserted at the head of the send queue (shared C05.b); disposing an Rx observable cancels the stream behind it (shared C20.d).")
+EXPLANATION_ADDED = ("(h) request_response registers the requester's cancel callback on the very future it returns; a CANCEL is never inserted at the head of the send queue (shared C05.b); disposing an Rx observable cancels the stream behind it (shared C20.d). (j) an async-generator adapter over a library stream (the GraphQL transport) cancels its subscription when the generator is closed: every yield sits in a try whose GeneratorExit handler or finally calls cancel() on the subscriber it subscribed.")
 EXPLANATION = EXPLANATION.replace(' Not decided', ' ' + EXPLANATION_ADDED + ' Not decided', 1) \
     if ' Not decided' in EXPLANATION else EXPLANATION + ' ' + EXPLANATION_ADDED
 ASSUMPTIONS = COMMON_ASSUMPTIONS
@@ -449,5 +449,60 @@ def rule_order(ctx):
     c05b(ctx)
 
 
+def rule_generator_adapters(ctx):
+    """An async-generator adapter that subscribes to a library stream and hands the elements on with `yield` (the
+    GraphQL transport's subscribe()) is cancelled by closing the generator: GeneratorExit is raised at the `yield`, so
+    every yield must sit inside a try whose GeneratorExit handler (or finally) cancels the subscription it created -
+    otherwise no CANCEL is sent and the peer keeps producing."""
+    rep = ctx.report
+    n = 0
+    for fn in ctx.repo.all_functions():
+        if not fn.qualname.startswith('rsocket') or not fn.is_async or not fn.has_yield():
+            continue
+        # a local subscriber handed to <socket>.request_stream/request_channel(...).subscribe(<it>)
+        subs = []
+        for c in walk_local(fn.node):
+            if isinstance(c, ast.Call) and isinstance(c.func, ast.Attribute) and c.func.attr == 'subscribe' and \
+                    c.args and isinstance(c.args[0], ast.Name) and \
+                    any(x in ast.unparse(c.func.value) for x in ('request_stream', 'request_channel')):
+                subs.append(c.args[0].id)
+        if not subs:
+            continue
+        n += 1
+        parents = {}
+        for a in ast.walk(fn.node):
+            for b in ast.iter_child_nodes(a):
+                parents[b] = a
+        ok, detail = True, ''
+        yields = [y for y in walk_local(fn.node) if isinstance(y, (ast.Yield, ast.YieldFrom))]
+        for y in yields:
+            x = y
+            covered = False
+            while x in parents:
+                par = parents[x]
+                if isinstance(par, ast.Try) and any(x is st or x in list(ast.walk(st)) for st in par.body):
+                    blocks = list(par.finalbody)
+                    for h in par.handlers:
+                        t = ast.unparse(h.type) if h.type is not None else 'BaseException'
+                        if any(k in t for k in ('GeneratorExit', 'BaseException')):
+                            blocks.extend(h.body)
+                    for st in blocks:
+                        for c in ast.walk(st):
+                            if isinstance(c, ast.Call) and isinstance(c.func, ast.Attribute) and \
+                                    c.func.attr == 'cancel' and isinstance(c.func.value, ast.Name) and \
+                                    c.func.value.id in subs:
+                                covered = True
+                if isinstance(par, (ast.FunctionDef, ast.AsyncFunctionDef)):
+                    break
+                x = par
+            if not covered:
+                ok, detail = False, ('the yield at line %d is outside any try that cancels %s on GeneratorExit: a '
+                                     'consumer that stops early leaves the stream running, no CANCEL is sent' % (
+                                         y.lineno, '/'.join(sorted(set(subs)))))
+        rep.add('C09.j', '%s / closing the generator cancels the stream' % fn.short, fn, ok and bool(yields),
+                detail or 'every yield is inside a try whose GeneratorExit handler cancels the subscriber')
+    rep.require('C09.j', 'generator adapters over library streams', n, 1)
+
+
 RULES = [('C09.a', rule_a), ('C09.b', rule_b), ('C09.c', rule_c), ('C09.d', rule_d), ('C09.e', rule_e),
-         ('C09.f', c07b), ('C09.g', rule_g), ('C05.a', rule_order), ('C20.d', rule_rx), ('C09.i', rule_router_future)]
+         ('C09.f', c07b), ('C09.g', rule_g), ('C05.a', rule_order), ('C20.d', rule_rx), ('C09.i', rule_router_future), ('C09.j', rule_generator_adapters)]
